@@ -75,8 +75,9 @@ def templates(tier, seed):
                 if (":" in s or ":" in e) and off in ("125%", "absneg") and s != "plain" and e != "plain" and (s[1] != e[1]):
                     continue
                 tds.append(dict(fam="corner", s=s, e=e, off=off))
-    for s, e in (("@tl", "@b"), ("plain", "@c"), ("pt", "plain"), ("@r", "pt")):
-        tds.append(dict(fam="corner", s=s, e=e, off="none"))
+    for s, e in (("@tl", "@b"), ("plain", "@c"), ("pt", "plain"), ("@r", "pt"), ("plain", "pt"), ("pt", "@l"), ("pt", "pt"), ("@c", "plain"), ("plain", "@br")):
+        for off in ("none", "25%"):
+            tds.append(dict(fam="corner", s=s, e=e, off=off, keep=True))
     # connector attributes that have no effect for the connector kind are connector attributes all the same (never in the output)
     stray = []
     for i, t in enumerate(tds):
@@ -91,7 +92,7 @@ def templates(tier, seed):
             for order in ("kab", "akb", "kba", "rel-b", "rel-b-kab"):
                 ordered.append(dict(t, order=order))
     if tier == "quick":
-        tds = sample_quota(tds, lambda t: (t["fam"],), {"straight": 120, "hv": 16, "corner": 260}, seed)
+        tds = [t for t in tds if t.get("keep")] + sample_quota([t for t in tds if not t.get("keep")], lambda t: (t["fam"],), {"straight": 120, "hv": 16, "corner": 260}, seed)
         ordered = sample_quota(ordered, lambda t: (t["fam"], t["order"]), {"straight": 12, "hv": 2, "corner": 16}, seed)
     if tier == "quick":
         stray = sample_quota(stray, lambda t: (t["fam"], t["stray"]), {"straight": 10, "hv": 4}, seed)
